@@ -266,6 +266,25 @@ func c13Cluster(c *fw.Ctx) {
 			return
 		}
 	}
+	// (1b) the consumer is the slow part: inside its callback at the second row it waits until the deadline has
+	// passed, while the followers have long delivered everything into the leader's buffer
+	for _, q := range queries {
+		deadline := time.Now().Add(1200 * time.Millisecond)
+		ctx, cancel := context.WithDeadline(context.Background(), deadline)
+		got := dbh.RunQuery(ctx, e.cl.Leaders[0].DB, q, true, func(i int, row *dbh.Row) (bool, error) {
+			if i == 1 {
+				for !time.Now().After(deadline.Add(50 * time.Millisecond)) {
+					time.Sleep(5 * time.Millisecond)
+				}
+			}
+			return true, nil
+		})
+		cancel()
+		judge("consumer waits past the deadline at row 1 (rows buffered at the leader)", q, got)
+		if c.Violated() {
+			return
+		}
+	}
 	// (2) a whole partition without live handler
 	if e.N >= 2 {
 		p := r.Intn(e.N)
